@@ -349,7 +349,14 @@ func mpEntryVariant(w *bytes.Buffer, r *common.Rng, e mpEnt) {
 			if r.Chance(1, 20) {
 				w.WriteByte(0xc0)
 			} else if r.Chance(1, 30) {
-				mpJunk(w, r, 1) // a key of another type: outside the model unless raw / nil
+				// a key of another type (outside the model unless nil); never a raw one: keys stay printable ASCII
+				var jw bytes.Buffer
+				mpJunk(&jw, r, 1)
+				if h := jw.Bytes()[0]; (h >= 0xa0 && h <= 0xbf) || (h >= 0xc4 && h <= 0xc6) || (h >= 0xd9 && h <= 0xdb) {
+					w.WriteByte(0x01)
+				} else {
+					w.Write(jw.Bytes())
+				}
 			} else if r.Chance(1, 20) {
 				mpRaw(w, nil, vform)
 			} else {
